@@ -29,7 +29,9 @@ def make_vectorizable(func: callable, backend: str):
     tree = _make_vectorizable_ast(func, module=module)
 
     # recreate scope of function and add array library
-    scope = func.__globals__
+    # Execute the new source in a copy of the function's globals. Executing it in the
+    # globals themselves would rebind the function's name in its defining module.
+    scope = dict(func.__globals__)
     scope[module] = import_module(module)
 
     # execute new ast
